@@ -17,7 +17,7 @@ func init() {
 			Title: "Allocator never exceeds its limits and accounts memory exactly",
 			Explanation: "Decides that every mutation site of the allocator's counters is guarded and paired: (R1) every increase of the global or a per-peer counter is dominated by both limit tests (total+amount <= max total, peer+amount <= max per peer) on the same amount; " +
 				"(R2) every grant and every release changes the global and the peer counter in the same function, by the same amount; (R3) every decrease is dominated by counter >= amount (or assigns zero on the other branch), and the amount applied to the global counter is the clamped one; " +
-				"(R4) releasing a peer subtracts its total from the global counter and removes it from both the map and the heap; (R5) every access to the counters, the peer map, the heap and the per-peer fields holds the allocator lock. " +
+				"(R4) releasing a peer subtracts its total from the global counter and removes it from both the map and the heap; (R5) every access to the counters, the peer map, the heap and the per-peer fields holds the allocator lock; (R6) the peer map and the heap change together. " +
 				"Not decided: the numeric invariants over all operation sequences (a model-checking job); uint64 overflow of the sums.",
 			Assumptions: append([]string{"the heap comparator runs only inside heap operations (go-ipfs-pq), all of which are checked to run under the lock"}, commonTrust...),
 			Technique:   "guard dominance and same-value provenance on SSA stores; lock-set analysis with caller summaries",
@@ -275,6 +275,42 @@ func runC13(c *engine.Ctx) {
 	}
 	if !found {
 		c.Violate(r4, "peer-release", token.NoPos, "no function both removes a peer from the status map and subtracts its total from the global counter")
+	}
+
+	// R6 the status map and the heap hold the same peers: every map delete goes with a heap Remove/Pop, every insert with a Push
+	r6 := c.Rule("R6", "the peer-status map and the peer-status heap change together (insert with Push, delete with Remove/Pop)", 2)
+	heapOp := func(in ssa.Instruction, names ...string) bool {
+		cc, ok := in.(*ssa.Call)
+		if !ok || !cc.Call.IsInvoke() || !isLoadOfField(cc.Call.Value, a.heap) {
+			return false
+		}
+		for _, n := range names {
+			if cc.Call.Method.Name() == n {
+				return true
+			}
+		}
+		return false
+	}
+	for _, f := range a.fns {
+		for _, d := range engine.MapDeletesOfField([]*ssa.Function{f}, a.statuses) {
+			paired := false
+			engine.Instrs(f, func(in ssa.Instruction) {
+				if heapOp(in, "Remove", "Pop") && sameRegion(in, d) {
+					paired = true
+				}
+			})
+			c.Decide(r6, engine.FuncName(f)+"|delete-with-heap-removal", d.Pos(), paired, "a peer leaves the map together with its heap element",
+				"a peer is deleted from the status map while its element stays in the heap: a later allocation creates a second status for the peer, and when the stale element is popped the live status is deleted by peer ID — totals, limits and peer release then disagree")
+		}
+		for _, mu := range engine.MapUpdatesOfField([]*ssa.Function{f}, a.statuses) {
+			paired := false
+			engine.Instrs(f, func(in ssa.Instruction) {
+				if heapOp(in, "Push") && sameRegion(in, mu) {
+					paired = true
+				}
+			})
+			c.Decide(r6, engine.FuncName(f)+"|insert-with-push", mu.Pos(), paired, "a peer enters the map together with its heap element", "a peer status is inserted into the map without being pushed onto the heap (its waiting allocations are never considered)")
+		}
 	}
 
 	// R5 lock discipline
